@@ -284,6 +284,122 @@ def replay_bcrypt(as_bytes, w, te):
     return False
 
 
+
+# ------------------------------------------------------------------ lmhash (limit 14 bytes of the upper-cased, encoded secret)
+def ob_lmhash(pat, encoding, mode):
+    from passlib import exc
+    from passlib.hash import lmhash
+    from passlib.context import CryptContext
+    import passlib.handlers.windows as W
+    import passlib.crypto.des as DES
+    import passlib.utils.handlers as uh
+    import passlib.utils as U
+    # pat: concrete characters (str) and symbolic ones (int = UTF-8 width)
+    widths = [x for x in pat if isinstance(x, int)]
+    sv, cons = SStr.var("c", widths)
+    it = iter(zip(sv.c, sv.wd))
+    cs, ws = [], []
+    for x in pat:
+        if isinstance(x, int):
+            c_, w_ = next(it)
+            cs.append(c_)
+            ws.append(w_)
+        else:
+            cs.append(x)
+            ws.append(len(x.encode("utf-8")))
+    s = SStr(cs, ws)
+    symc = [c for c in s.c if not isinstance(c, str)]
+    if encoding in ("cp437", None):
+        cons = z3.And(cons, *[z3.ULT(c, 128) for c in symc])       # cp437: only the ASCII half is modelled
+    keys = []
+
+    def fake_block(key, data):
+        keys.append(SBytes.lift(key))
+        return b"\x00" * 8
+    kw = {} if encoding is None else {"encoding": encoding}
+    if mode == "hasher":
+        hashfn = lmhash.using(truncate_error=True).hash
+    elif mode == "context":
+        hashfn = CryptContext(["lmhash"], truncate_error=True).hash
+    else:
+        hashfn = lmhash.hash
+
+    def run():
+        del keys[:]
+        sym.assume(cons)
+        enc = SStr.lift(s.upper()).encode(encoding or "cp437") if True else None
+        enc = SBytes.lift(enc)
+        try:
+            hashfn(s, **kw)
+            return ("hashed", len(enc), list(keys), enc)
+        except exc.PasswordTruncateError:
+            return ("truncerr", len(enc), None, enc)
+    with patched((W, "str", str_), (W, "bytes", bytes_), (DES, "des_encrypt_block", fake_block), (U, "str", str_), (U, "bytes", bytes_),
+                 (uh, "unicode_or_bytes", (str, bytes, SStr, SBytes)), (uh, "str", str_), (uh, "bytes", bytes_),
+                 (W, "hexlify", lambda b: b"00" * 16)):
+        paths = explore(run, max_paths=4000)
+    for p in paths:
+        if p.exc is not None:
+            if isinstance(p.exc, UnicodeEncodeError):
+                continue
+            return inconclusive("lmhash raised %r" % (p.exc,))
+        kind, n, ks, enc = p.result
+        want_err = mode != "off" and n > 14
+        if (kind == "truncerr") != want_err:
+            r_, m = check(p.cond())
+            if r_ != "sat":
+                continue
+            w = [ord(c) if isinstance(c, str) else m.eval(c, True).as_long() for c in s.c]
+            return violation("lmhash (truncate_error=%s, encoding=%s): secret %r encodes (upper-cased) to %d bytes and is %s" %
+                             (mode, encoding, "".join(map(chr, w)), n, "silently truncated" if want_err else "refused"),
+                             "truncate:lmhash", {"module": "harness.c05", "func": "replay_lmhash",
+                                                 "args": {"w": w, "encoding": encoding, "mode": mode}})
+        if kind == "hashed":
+            padded = SBytes(list(enc.b) + [0] * max(0, 14 - n))
+            if len(ks) != 2 or len(ks[0]) != 7 or len(ks[1]) != 7:
+                return inconclusive("DES called with unexpected keys")
+            r_, m = check(p.cond(), z3.Or(ks[0].bv() != SBytes(padded.b[:7]).bv(), ks[1].bv() != SBytes(padded.b[7:14]).bv()))
+            if r_ == "sat":
+                w = [ord(c) if isinstance(c, str) else m.eval(c, True).as_long() for c in s.c]
+                return violation("lmhash: DES keys are not the first 14 bytes of the upper-cased %s secret" % encoding, "truncate:lmhash",
+                                 {"module": "harness.c05", "func": "replay_lmhash", "args": {"w": w, "encoding": encoding, "mode": mode}})
+            if r_ != "unsat":
+                return inconclusive("solver %s" % r_)
+    return ok("lmhash %s enc=%s pattern %r: refused iff the upper-cased encoding exceeds 14 bytes; keys = its first 14 bytes (%d paths)" %
+              (mode, encoding, pat, len(paths)), paths=len(paths))
+
+
+def replay_lmhash(w, encoding, mode):
+    from passlib import exc
+    from passlib.hash import lmhash
+    from passlib.context import CryptContext
+    secret = "".join(map(chr, w))
+    kw = {} if encoding is None else {"encoding": encoding}
+    try:
+        raw = secret.upper().encode(encoding or "cp437")
+    except UnicodeEncodeError:
+        return False
+    hashfn = lmhash.using(truncate_error=True).hash if mode == "hasher" else (
+        CryptContext(["lmhash"], truncate_error=True).hash if mode == "context" else lmhash.hash)
+    try:
+        h = hashfn(secret, **kw)
+    except exc.PasswordTruncateError:
+        return (mode == "off" or len(raw) <= 14) and "secret of %d encoded bytes refused" % len(raw)
+    if mode != "off" and len(raw) > 14:
+        return "lmhash hashed %r (%d bytes once upper-cased and %s-encoded) silently although truncate_error is set" % (
+            secret, len(raw), encoding or "cp437")
+    return False
+
+
+def ob_lmhash_group(pats, encoding, mode):
+    out = []
+    for pat in pats:
+        r = ob_lmhash(tuple(pat), encoding, mode)
+        r["name"] = "lmhash[%s,%s,%s]" % (mode, encoding, "".join(str(x) if isinstance(x, int) else "." for x in pat))
+        out.append(r)
+    return out
+
+
 # ------------------------------------------------------------------ NUL at every position (DES family)
 def ob_nul(name, n):
     from passlib import exc, registry
@@ -447,6 +563,14 @@ def run(tier, seed, t0, only=None):
         obs.append(Ob("bcrypt-norm[te=%s,bytes]" % te, ob_bcrypt_group,
                       {"pats": [(1,) * n for n in (0, 1, 71, 72, 73, 74)], "as_bytes": True, "te": te}, timeout=1800))
     # the formats with an OS crypt() counterpart (crypt16/bigcrypt have none and do not refuse NUL: not in scope)
+    X, E, U3 = "x", "\u00e9", "\u20ac"
+    lp = [(X,) * 12 + (1,), (X,) * 13 + (1,), (X,) * 14 + (1,), (X,) * 12 + (2,), (X,) * 13 + (2,), (X,) * 11 + (3,), (X,) * 12 + (3,),
+          (X,) * 10 + (4,), (X,) * 11 + (4,), (E,) * 6 + (2,), (E,) * 6 + (X, 2), (E,) * 6 + (X, X, 1), (U3,) * 4 + (2,), (U3,) * 4 + (3,),
+          (1,) + (X,) * 13, (2,) + (X,) * 12, (2,) + (X,) * 13, (X,) * 11 + (1, 2), (X,) * 11 + (2, 2)]
+    for mode in ("hasher", "context", "off"):
+        obs.append(Ob("lmhash[%s,utf-8]" % mode, ob_lmhash_group, {"pats": lp, "encoding": "utf-8", "mode": mode}, timeout=1800))
+        obs.append(Ob("lmhash[%s,cp437]" % mode, ob_lmhash_group, {"pats": [(X,) * n + (1, 1) for n in (11, 12, 13)], "encoding": None, "mode": mode},
+                      timeout=1800))
     for name in ("des_crypt", "bsdi_crypt", "ldap_des_crypt", "ldap_bsdi_crypt"):
         for n in ((1, 8, 12) if tier == "quick" else (1, 2, 7, 8, 9, 12, 16, 17, 24)):
             obs.append(Ob("nul[%s,n=%d]" % (name, n), ob_nul, {"name": name, "n": n}, timeout=600))
@@ -468,7 +592,7 @@ def run(tier, seed, t0, only=None):
         stubs=["DES block function -> recorder of its key argument (DES itself: C11)", "str/bytes isinstance inside the handler modules "
                "accept symbolic text/bytes", "validate_secret's type tuple extended by the symbolic types"],
         assumptions=["characters are encoded as UTF-8 (the encoding these hashers use)"],
-        outside=["lmhash / cisco_pix / cisco_asa (need the MD5/DES stubs of C02: checked there once built)",
+        outside=["cisco_pix / cisco_asa digest input", "lmhash under cp437 beyond ASCII (the code page is not modelled)",
                  "libxcrypt's own truncation", "passwords over 4097 characters"],
         explanation="For each width pattern the real hash() runs on symbolic characters; z3 shows on every path that the "
                     "truncation error is raised exactly when the *byte* length exceeds the limit (truncate_error on) and that the "
